@@ -688,7 +688,10 @@ func New() *FunctionGenerator {
 	fg.AddOpImpl("=", false, equal)
 	fg.AddOp("!=", false, func(st funcGen.Stack[Value], a Value, b Value) (Value, error) {
 		eq, err := equal.Calc(st, a, b)
-		return !(eq.(Bool)), err
+		if err != nil {
+			return nil, err
+		}
+		return !(eq.(Bool)), nil
 	})
 	fg.AddOp("~", false, func(st funcGen.Stack[Value], a Value, b Value) (Value, error) {
 		if list, ok := b.(*List); ok {
@@ -1025,6 +1028,9 @@ func randomFunc() func(st funcGen.Stack[Value], cs []Value) (Value, error) {
 		} else if st.Size() == 1 {
 			v := st.Get(0)
 			if n, ok := v.(Int); ok {
+				if n <= 0 {
+					return nil, errors.New("random requires a positive argument")
+				}
 				return Int(rand.Intn(int(n))), nil
 			}
 			return nil, errors.New("random only allowed on int")
